@@ -91,6 +91,16 @@ def units(tier, seed):
     return us
 
 
+def overhead_exceeded(flops, flops0, target):
+    """exact rational comparison (the figures can be far beyond 2**53, where
+    int > float * int is decided by float rounding); the finder itself works
+    in floating point, so one part in 1e12 is allowed"""
+    from fractions import Fraction
+
+    return Fraction(flops) > Fraction(target) * flops0 * (
+        1 + Fraction(1, 10 ** 12))
+
+
 def resolve(tval, tree):
     if tval == "half":
         return max(1, int(tree.max_size()) // 2)
@@ -270,8 +280,8 @@ def work(unit):
                         t2.nslices < kw["target_slices"] * mult0:
                     bad.append(("target_slices-not-met", t2.nslices,
                                 kw["target_slices"] * mult0))
-                if "target_overhead" in kw and \
-                        t2.total_flops() > kw["target_overhead"] * flops0:
+                if "target_overhead" in kw and overhead_exceeded(
+                        t2.total_flops(), flops0, kw["target_overhead"]):
                     bad.append(("target_overhead-not-met",
                                 t2.total_flops() / flops0,
                                 kw["target_overhead"]))
@@ -334,8 +344,8 @@ def replay(case):
         bad.append(("target_size",))
     if "target_slices" in kw and t2.nslices < kw["target_slices"] * mult0:
         bad.append(("target_slices",))
-    if "target_overhead" in kw and \
-            t2.total_flops() > kw["target_overhead"] * flops0:
+    if "target_overhead" in kw and overhead_exceeded(
+            t2.total_flops(), flops0, kw["target_overhead"]):
         bad.append(("target_overhead",))
     return [{"signature": "slicefinder:" + str(bad[0][0]),
              "detail": bad}] if bad else []
